@@ -54,6 +54,30 @@ def list_plans(run):
             if c["op"] not in ("PushBackList", "PushFrontList"):
                 c["m"] = min(c.get("m", 1) or 1, max(cnt, 1))
         gen.append(pl)
+    # orphans of an Init: handles created before an Init still name the list (container/list leaves e.list alone), so calls on them go
+    # through the list's code paths with a stale chain; every such call, then (optionally a push and) a second Init, then pushes - the
+    # fork must do whatever the standard library does at every step (an Init that is skipped or partial shows in the next traversal)
+    one = ["Remove", "MoveToFront", "MoveToBack"]
+    two = ["MoveBefore", "MoveAfter", "InsertBefore", "InsertAfter"]
+    fam = []
+    for n in (1, 2, 3):
+        for op in one + two:
+            for e in range(1, n + 1):
+                for m in (range(1, n + 1) if op in two[:2] else [e]):
+                    for mid in ("", "PushBack", "PushFront"):
+                        pl = [dict(op="Reset")] + [dict(op="PushBack", l=1, e=0, m=0) for _ in range(n)]
+                        pl.append(dict(op="Init", l=1, e=1, m=1))
+                        pl.append(dict(op=op, l=1, e=e, m=m))
+                        if mid:
+                            pl.append(dict(op=mid, l=1, e=0, m=0))
+                        pl.append(dict(op="Init", l=1, e=1, m=1))
+                        pl.append(dict(op="PushBack", l=1, e=0, m=0))
+                        pl.append(dict(op="PushFront", l=1, e=0, m=0))
+                        pl.append(dict(op=op, l=1, e=e, m=m))
+                        pl.append(dict(op="Init", l=1, e=1, m=1))
+                        pl.append(dict(op="PushBack", l=1, e=0, m=0))
+                        fam.append(pl)
+    gen += fam
     return plans, gen, st
 
 
